@@ -60,6 +60,17 @@ class Path:
                 if st['k'] == 'assign' and st['place']['proj']:
                     yield k, i, self.fn.loc(st['place']), st
 
+    def cdecisions(self):
+        """decisions with the std Option/Result plumbing normalised (see stdalg): [(k, bid, expr', val', how)]"""
+        if getattr(self, '_cdec', None) is None:
+            import stdalg
+            out = []
+            for (k, bid, e, val, how) in self.decisions:
+                e2, v2 = stdalg.canon_decision(e, val)
+                out.append((k, bid, e2, v2, how))
+            self._cdec = out
+        return self._cdec
+
     def ret(self):
         return self.sym.ret_value()
 
